@@ -214,7 +214,8 @@ func (ex *factExtractor) findCmp(node ast.Node, lhs, rhs string) (token.Token, b
 	n := 0
 	ast.Inspect(node, func(x ast.Node) bool {
 		if b, ok := x.(*ast.BinaryExpr); ok {
-			if ex.str(b.X) == lhs && ex.str(b.Y) == rhs {
+			isCmp := b.Op == token.LSS || b.Op == token.LEQ || b.Op == token.GTR || b.Op == token.GEQ || b.Op == token.EQL || b.Op == token.NEQ
+			if isCmp && ex.str(b.X) == lhs && ex.str(b.Y) == rhs {
 				op = b.Op
 				n++
 			}
